@@ -7,8 +7,9 @@
 #include <array>
 #include <tuple>
 
-extern "C" int omp_get_num_procs(void) noexcept { return 1; }
-extern "C" int omp_get_max_threads(void) noexcept { return 1; }
+static int g_chunks = 1;   // answered to the library's omp_get_num_procs / omp_get_max_threads (chunks run sequentially)
+extern "C" int omp_get_num_procs(void) noexcept { return g_chunks; }
+extern "C" int omp_get_max_threads(void) noexcept { return g_chunks; }
 
 #ifdef VERIF_ASAN
 extern "C" void __asan_on_error() {
@@ -232,8 +233,43 @@ struct Explorer {
         }
     }
 
+    // family (e): more than 2^15 points, so that the index over the Morton codes is built by the chunked builder with p chunks; a dense
+    // grid plus `tail` far points that do not follow the trend of the last segment (and make n % p non-zero).
+    void family_large(int p, int tail) {
+        if constexpr (D <= 3) {
+            T side = D == 2 ? 182 : 33;   // 182^2 = 33124, 33^3 = 35937
+            std::vector<T> axis; for (T v = 0; v < side; ++v) axis.push_back(v);
+            std::vector<std::pair<P, int>> cells;
+            for_cells(axis, [&](const P &pt) { cells.emplace_back(pt, 1); });
+            for (int i = 0; i < tail; ++i) { P far; for (size_t d = 0; d < D; ++d) far[d] = T(side + (D == 2 ? 200 : 60) + (D == 2 ? 37 : 9) * i + 11 * d);   // stays below the encoder limit (2^9 for 3 x uint32) cells.emplace_back(far, 1); }
+            std::string spec = "large:side=" + std::to_string(side) + ":tail=" + std::to_string(tail) + ":chunks=" + std::to_string(p);
+            g_chunks = p;
+            Built b{};
+            bool ok = build(cells, spec, b);
+            g_chunks = 1;
+            if (!ok) return;
+            if (p == 8) run.sample(case_of(spec, "*contains for every stored point, boxes around the tail*"));
+            if (prop == 14 || prop == 17) {
+                for (auto &c : cells) check_contains(b, c.first, spec);
+                for (int i = 0; i < tail; ++i) { P q = cells[cells.size() - 1 - i].first; q[0] = T(q[0] + 1); check_contains(b, q, spec); }
+            }
+            if (prop == 13 || prop == 17) {
+                P lo{}, hi{}; for (size_t d = 0; d < D; ++d) { lo[d] = T(side - 3); hi[d] = T(side + (D == 2 ? 200 : 60) + (D == 2 ? 37 : 9) * tail + 40); }
+                check_box(b, lo, hi, spec);
+                for (size_t d = 0; d < D; ++d) { lo[d] = T(side + (D == 2 ? 100 : 30)); }
+                check_box(b, lo, hi, spec);
+                for (size_t d = 0; d < D; ++d) { lo[d] = 0; hi[d] = 5; }
+                check_box(b, lo, hi, spec);
+                for (size_t d = 0; d < D; ++d) { lo[d] = T(side - 2); hi[d] = T(side - 1); }
+                check_box(b, lo, hi, spec);
+            }
+            delete b.idx;
+        }
+    }
+
     void replay(const std::map<std::string, std::string> &m) {
         std::string spec = m.at("cells");
+        if (spec.rfind("large:", 0) == 0) { auto parts = mc::split(spec, ':'); family_large(atoi(parts[3].c_str() + 7), atoi(parts[2].c_str() + 5)); return; }
         std::vector<std::pair<P, int>> cells;
         if (spec.rfind("grid", 0) == 0) {
             auto parts = mc::split(spec, ';');
@@ -271,6 +307,7 @@ struct Thunk {
     static const char *&name() { static const char *n = ""; return n; }
     static void run(Run &r, Cn &c, int prop, const Task &t) {
         Explorer<D, T, E> ex{r, c, prop, name()};
+        if (t.kind == 5) { ex.family_large(int(t.G), int(t.lo0)); return; }
         if (t.kind == 3) {
             // lo0 selects the slice: single runs of every length 1..600, or every split of a set of critical totals into two runs
             if (t.lo0 == 0) { for (int m = int(t.G); m < int(t.G) + 50 && m <= 600; ++m) { ex.family_missrun(m, 0); if (r.deadline_passed()) return; } }
@@ -359,6 +396,8 @@ int main(int argc, char **argv) {
         else grids = {4};
         if (asan && !thorough) { if (D == 2) grids = {16}; else if (D == 3) grids = {4}; }
         for (long G : grids) for (long lo0 = 0; lo0 < G; ++lo0) { Task t{int(c), 1, {}, 0, G, lo0, {}}; tasks.push_back(t); }
+        // (e) chunked construction of the index over the codes: > 2^15 points, 2/8/20 chunks, 7 or 19 far tail points
+        if (D <= 3 && (c == 0 || c == 3 || thorough) && (!asan || thorough)) for (long p : {2L, 8L, 20L}) for (long tail : {7L, 19L}) { Task t{int(c), 5, {}, 0, p, tail, {}}; tasks.push_back(t); }
         // (d) miss-run lengths (2D): every run length 1..600, and every split of the critical totals into two runs
         if (D == 2) {
             for (long m = 1; m <= 600; m += 50) { Task t{int(c), 3, {}, 0, m, 0, {}}; tasks.push_back(t); }
@@ -381,7 +420,7 @@ int main(int argc, char **argv) {
     ev.states_counter = "point_multisets_indexed"; ev.transitions_counter = prop == 14 ? "contains_queries_checked" : "box_queries_checked";
     ev.nontrivial_counter = "multisets_with_2plus_distinct_points";
     ev.rule = "real miss_threshold=64. (a) every multiplicity vector in {0,1,65}^cells over 3x3 (2D) / 2x2x2 (3D) cell universes (65 copies of an out-of-box cell force the bigmin skip), several coordinate sets incl. the largest encodable coordinate; "
-              "(b) full grids 16x16, 32x32, 8x8x8, 4^4 with every axis-aligned box; (c, thorough) 16x16 grid with every {removed,x1,x2} pattern of a 3x3 window; (d) miss-run family: a run of m consecutive out-of-box points for every m in 1..600 and every split (step 16) of the totals {63..66,127..130,191..193,255..258,319..321,511..513} into two runs separated by an in-box hit, also for Epsilon 32 and 64. " +
+              "(b) full grids 16x16, 32x32, 8x8x8, 4^4 with every axis-aligned box; (c, thorough) 16x16 grid with every {removed,x1,x2} pattern of a 3x3 window; (e) 33124 / 35937 grid points plus 7 or 19 far points, index built with 2, 8 and 20 chunks (chunked construction); (d) miss-run family: a run of m consecutive out-of-box points for every m in 1..600 and every split (step 16) of the totals {63..66,127..130,191..193,255..258,319..321,511..513} into two runs separated by an in-box hit, also for Epsilon 32 and 64. " +
               std::string(prop == 14 ? "Every cell of the universe and cells just outside it / at the largest encodable coordinate are passed to contains(); oracle: membership in the multiset."
                                      : "Every box over the axis values is enumerated; oracle: brute-force filter sorted by the harness's own Morton code, with multiplicity; iteration must end within n+2 steps.") +
               " State = one indexed multiset; transition = one query; non-trivial = at least two distinct points.";
